@@ -54,6 +54,7 @@ type kindDef struct {
 	module string
 	all    bool
 	pick   func(c *chain) int // which validator sends a validator-signed kind (default 0)
+	retag  map[string]string  // parameters whose type tag is not the one reflection gives (structured byte strings)
 	signer func(c *chain, v int) *env.Account
 	base   func(c *chain, v int) sdk.Msg
 }
@@ -195,6 +196,12 @@ var kinds = []kindDef{
 		must(err)
 		return &consensustypes.MsgAddEvidence{Metadata: metaOf(c.valAcc(v)), MessageID: idOf(m, 1), QueueTypeName: q, Proof: p}
 	}},
+	// proof of the remote transaction that DOES match the queued message (the one whose hash the relayer published), with the
+	// receipt as a structured parameter (tag "receipt": no logs, logs without topics, foreign logs first, thousands of logs,
+	// undecodable event data, failed status ...): for a user contract deployment, a logic call and a valset update
+	{name: "AddEvidenceDeployOK/all", module: "consensus", all: true, signer: byVal, retag: receiptTag, base: okEvidenceBase("deploy")},
+	{name: "AddEvidenceCallOK/all", module: "consensus", all: true, signer: byVal, retag: receiptTag, base: okEvidenceBase("call")},
+	{name: "AddEvidenceValsetOK/all", module: "consensus", all: true, signer: byVal, retag: receiptTag, base: okEvidenceBase("valset")},
 	{name: "AddEvidenceBalances/all", module: "consensus", all: true, signer: byVal, base: func(c *chain, v int) sdk.Msg {
 		q := balancesQueue(chainA)
 		m := firstOf(c.e.App.ConsensusKeeper.GetMessagesForAttesting(c.ctx(), q, c.val(v).ValAddr))
@@ -350,6 +357,60 @@ func relayerOf(c *chain) int {
 		}
 	}
 	return 0
+}
+
+var receiptTag = map[string]string{"Proof>SerializedReceipt": "receipt"}
+
+// okEvidenceBase: evidence for the oldest reported (public access data) message of the wanted action on either chain, carrying
+// the transaction that matches it and the receipt the remote chain would produce.
+func okEvidenceBase(want string) func(c *chain, v int) sdk.Msg {
+	is := func(em *evmtypes.Message) bool {
+		if em == nil {
+			return false
+		}
+		switch em.Action.(type) {
+		case *evmtypes.Message_UploadUserSmartContract:
+			return want == "deploy"
+		case *evmtypes.Message_SubmitLogicCall:
+			return want == "call"
+		case *evmtypes.Message_UpdateValset:
+			return want == "valset"
+		}
+		return false
+	}
+	return func(c *chain, v int) sdk.Msg {
+		var target consensustypes.QueuedSignedMessageI
+		tch := chainA
+		for pass := 0; pass < 2 && target == nil; pass++ {
+			for _, ch := range chains {
+				for _, m := range c.queueMsgs(turnstoneQueue(ch)) {
+					if is(c.evmMsg(m)) && (pass == 1 || m.GetPublicAccessData() != nil) {
+						target, tch = m, ch
+						break
+					}
+				}
+				if target != nil {
+					break
+				}
+			}
+		}
+		q := turnstoneQueue(tch)
+		proof := txProof(c, 7)
+		if target != nil {
+			vs := uint64(0)
+			if pad := target.GetPublicAccessData(); pad != nil {
+				vs = pad.GetValsetID()
+			}
+			if tx, err := c.matchingTx(target, tch, vs); err == nil {
+				proof = okProof(tx, receiptBytes(c.evmMsg(target), "ok"))
+			}
+		} else {
+			target = c.anyMsg()
+		}
+		p, err := codectypes.NewAnyWithValue(proof)
+		must(err)
+		return &consensustypes.MsgAddEvidence{Metadata: metaOf(c.valAcc(v)), MessageID: idOf(target, 1), QueueTypeName: q, Proof: p}
+	}
 }
 
 func estimateBase(c *chain, v int) sdk.Msg {
@@ -538,6 +599,17 @@ func leavesOf(m sdk.Msg) []leaf {
 	return out
 }
 
+// leaves of a message of this kind, with the kind's own tags applied
+func (k *kindDef) leaves(m sdk.Msg) []leaf {
+	ls := leavesOf(m)
+	for i := range ls {
+		if t, ok := k.retag[ls[i].Path]; ok {
+			ls[i].Tag = t
+		}
+	}
+	return ls
+}
+
 // ClassesOf: the hostile classes of a type tag (must equal ClassesOf in specs/ChainHistory.tla).
 var ClassesOf = map[string][]string{
 	"str":   {"empty", "overlong", "malformed"},
@@ -553,6 +625,8 @@ var ClassesOf = map[string][]string{
 	"list":  {"empty", "overlong"},
 	"any":   {"empty", "malformed"},
 	"time":  {"zero", "huge63"},
+	// a serialised transaction receipt
+	"receipt": {"empty", "malformed", "failed", "nologs", "notopics", "foreignfirst", "manylogs", "baddata", "manytopics"},
 }
 
 func bigPow(n uint) *big.Int { return new(big.Int).Lsh(big.NewInt(1), n) }
@@ -745,6 +819,10 @@ func mutate(m any, lf leaf, class string) (wire bool, err error) {
 		default:
 			return false, fmt.Errorf("class %s for any", class)
 		}
+	case "receipt":
+		// shapes of the receipt of a user contract deployment (the attester that reads receipt logs); for the other kinds the
+		// same logs are simply foreign to the message
+		v.SetBytes(receiptBytes(&evmtypes.Message{Action: &evmtypes.Message_UploadUserSmartContract{}}, class))
 	case "time":
 		switch class {
 		case "zero":
@@ -857,7 +935,7 @@ func (c *chain) hostile(kind, param, class string) (txs [][]byte, err error) {
 		var lf leaf
 		if class != "base" {
 			found := false
-			for _, l := range leavesOf(m) {
+			for _, l := range k.leaves(m) {
 				if l.Path == param {
 					lf, found = l, true
 					break
@@ -931,7 +1009,7 @@ func (c *chain) hostile(kind, param, class string) (txs [][]byte, err error) {
 func catalogueTable(c *chain) map[string][]leaf {
 	out := map[string][]leaf{}
 	for _, k := range kinds {
-		ls := leavesOf(k.base(c, 0))
+		ls := k.leaves(k.base(c, 0))
 		sort.Slice(ls, func(i, j int) bool { return ls[i].Path < ls[j].Path })
 		out[k.name] = ls
 	}
